@@ -32,7 +32,7 @@ Lemma same_ci s s1 : Same s s1 -> CI s -> CI s1.
 Proof. intros H Hc. unfold CI. rewrite (same_cfg _ _ H), (same_st _ _ H). exact Hc. Qed.
 
 Lemma srr_chunk s b e s1 st : send_resend_request s b e = (s1, st) ->
-  exists c, st = SResend None c e /\ (c = 0 \/ c_chunk (s_cfg s) <> 0).
+  exists c, st = SResend (Some []) c e /\ (c = 0 \/ c_chunk (s_cfg s) <> 0).
 Proof.
   intros H. unfold send_resend_request in H. cbv zeta in H.
   destruct (Z.eqb_spec (c_chunk (s_cfg s)) 0) as [Hc|Hc].
@@ -447,6 +447,7 @@ Proof.
   cbn [c04_scan]. rewrite !free_of_app. repeat (apply andb_true_iff; split).
   - free_rest.
   - apply (clause_402 i s e); assumption.
+  - free_rest.
   - free_rest.
   - free_rest.
   - free_rest.
